@@ -469,10 +469,6 @@ def _deindex1(t):
             depth = i[1]
             srcs = [it[2][0]] + [y if k == 0 else ("sub", y, ("slice", ("const", k), None, None)) for y, k in seqs]
             bvs = tuple(("bv", depth, n) for n in range(len(srcs)))
-            m = {x: ("bv#", 0)}  # placeholder, replaced below (x may coincide with a new index)
-            mapping = {}
-            for (y, k), b in zip(seqs, bvs[1:], strict=True):
-                mapping[("sub", y, i) if k == 0 else None] = b
             def rew(u):
                 if not isinstance(u, tuple):
                     return u
@@ -634,8 +630,6 @@ def norm(t, _arith=True):  # noqa: C901, PLR0911, PLR0912
                 parts.append(("list", (norm(x),)))
         return _mk_cat(parts)
     if tag == "binop" and t[1] == "+":
-        a, b = norm(t[2], _arith=False) if False else None, None
-        la, lb = _cat_parts(norm(t[2])) if not is_arith(t[2]) or t[2][0] == "binop" else None, None
         na, nb = norm(t[2]), norm(t[3])
         la, lb = _cat_parts(na), _cat_parts(nb)
         if la is not None or lb is not None:
@@ -643,7 +637,7 @@ def norm(t, _arith=True):  # noqa: C901, PLR0911, PLR0912
             lb = lb if lb is not None else [("seq", nb)]
             c = _mk_cat(la + lb)
             if _is_tuple_form(na) or _is_tuple_form(nb):
-                return c if c[0] == "list" and False else ("call", ("glob", "builtins.tuple"), (c,), ()) if c[0] != "list" else ("tuple", c[1])
+                return ("tuple", c[1]) if c[0] == "list" else ("call", ("glob", "builtins.tuple"), (c,), ())
             return c
     if tag in ("phi", "ifexp"):
         c = t[1]
@@ -731,8 +725,6 @@ def norm(t, _arith=True):  # noqa: C901, PLR0911, PLR0912
                 named[sig[1]] = norm(("tuple", tuple(pargs[1:])))
                 pargs = []
             if sig is not None and not any(p[0] == "star" for p in pargs):
-                if False:
-                    pass
                 for i, p in enumerate(pargs):
                     if i < len(sig):
                         named[sig[i]] = norm(p)
